@@ -3,7 +3,8 @@ usable.  Lane SIM: scan decisions against accept time + effective limit in
 virtual time (per-job over pool default, map/imap never timed out, result
 just before / after the scan), TERM-then-KILL recorded per pid.  Lane REAL
 (vmon.real_c05): real pools of every size incl. 1, tasks that ignore TERM,
-probes submitted afterwards, host process must survive."""
+probes submitted afterwards, host process must survive; a job finishing in time
+whose slow result callback is still running when the limit's instant passes."""
 from vmon import simcheck
 
 PROPERTY = 'C05'
